@@ -1,0 +1,198 @@
+//go:build verif
+
+// Contracts for the deductive verifier in /verif (govc). Only compiled with -tags verif.
+//
+// C19: stored assertions only move forward in revision.
+
+package asserts
+
+// ---- assumed contracts of interface methods (T5) ------------------------------------
+
+//@ func (asserts.Assertion).Revision
+//@   opaque
+//@ func (asserts.SequenceMember).Sequence
+//@   opaque
+
+// ---- vocabulary ------------------------------------------------------------------------
+
+// the per-identity table of a leaf (format number -> assertion) holds no nil assertion
+//@ define entriesOK(m map[int]Assertion) = forall f int :: has(m, f) ==> m[f] != nil
+
+// ---- in-memory leaf: the current assertion of an identity -----------------------------
+
+//@ func (memBSLeaf).cur
+//@   props C19
+//@   requires entriesOK(leaf[key0])
+//@   ensures [entry] a != nil ==> exists f int :: has(leaf[key0], f) && f <= maxFormat && leaf[key0][f] == a
+//@   ensures [max] forall f int :: has(leaf[key0], f) && f <= maxFormat ==> a != nil && leaf[key0][f].Revision() <= a.Revision()
+//@   loop 0: invariant a != nil ==> exists f int :: has(leaf[key0], f) && f <= maxFormat && leaf[key0][f] == a
+//@   loop 0: invariant forall f int :: visited(f) && f <= maxFormat ==> a != nil && leaf[key0][f].Revision() <= a.Revision()
+
+//@ func (memBSLeaf).put
+//@   props C19
+//@   requires assert != nil && entriesOK(leaf[key[0]])
+//@   ensures [accept] (result == nil) == old(forall f int :: has(leaf[key[0]], f) && f <= assertType.MaxSupportedFormat() ==> leaf[key[0]][f].Revision() < assert.Revision())
+//@   ensures [refused] result != nil ==> forall m map[int]Assertion, f int :: has(m, f) == old(has(m, f)) && m[f] == old(m[f])
+//@   ensures [refusedkeys] result != nil ==> forall k string :: has(leaf, k) == old(has(leaf, k)) && leaf[k] == old(leaf[k])
+//@   ensures [stored] result == nil ==> has(leaf, key[0]) && has(leaf[key[0]], assert.Format()) && leaf[key[0]][assert.Format()] == assert
+//@   ensures [others] result == nil ==> forall f int :: f != assert.Format() ==> has(leaf[key[0]], f) == old(has(leaf[key[0]], f)) && leaf[key[0]][f] == old(leaf[key[0]][f])
+//@   ensures [wf] entriesOK(leaf[key[0]])
+//@   ensures [wfall] old(forall m map[int]Assertion :: entriesOK(m)) ==> forall m map[int]Assertion :: entriesOK(m)
+
+//@ func (memBSLeaf).get
+//@   props C19
+//@   requires entriesOK(leaf[key[0]])
+//@   ensures [found] (result1 == nil) == (exists f int :: has(leaf[key[0]], f) && f <= maxFormat)
+//@   ensures [entry] result1 == nil ==> exists f int :: has(leaf[key[0]], f) && f <= maxFormat && leaf[key[0]][f] == result0
+//@   ensures [max] result1 == nil ==> forall f int :: has(leaf[key[0]], f) && f <= maxFormat ==> leaf[key[0]][f].Revision() <= result0.Revision()
+//@   ensures [notfound] result1 != nil ==> result1 == errNotFound && result0 == nil
+//@   ensures [nonnil] result1 == nil ==> result0 != nil
+
+// ---- client lemmas on one leaf ------------------------------------------------------------
+
+//@ func lemPutThenGet
+//@   lemma
+//@   props C19
+//@   requires assert != nil && at != nil && entriesOK(leaf[key[0]])
+
+// an accepted assertion (of a supported format) is what the leaf returns afterwards
+func lemPutThenGet(leaf memBSLeaf, at *AssertionType, key []string, assert Assertion) {
+	if leaf.put(at, key, assert) == nil && assert.Format() <= at.MaxSupportedFormat() {
+		a, err := leaf.get(key, at.MaxSupportedFormat())
+		assert_(err == nil && a == assert)
+	}
+}
+
+//@ func lemGetNeverGoesBack
+//@   lemma
+//@   props C19
+//@   requires assert != nil && at != nil && entriesOK(leaf[key[0]]) && maxFormat <= at.MaxSupportedFormat()
+
+// whatever a put does (accept or refuse), the revision returned for the identity does not decrease
+func lemGetNeverGoesBack(leaf memBSLeaf, at *AssertionType, key []string, assert Assertion, maxFormat int) {
+	a0, err0 := leaf.get(key, maxFormat)
+	leaf.put(at, key, assert)
+	a1, err1 := leaf.get(key, maxFormat)
+	if err0 == nil {
+		assert_(err1 == nil && a1.Revision() >= a0.Revision())
+	}
+}
+
+// ---- sequence leaf -----------------------------------------------------------------------
+
+//@ func specSequence
+//@   pure
+
+func specSequence(a Assertion) int {
+	if s, ok := a.(SequenceMember); ok {
+		return s.Sequence()
+	}
+	return 0
+}
+
+//@ define strictInts(s []int) = forall i int, j int :: 0 <= i && i < j && j < len(s) ==> s[i] < s[j]
+//@ define lowerBound(s []int, p int, x int) = 0 <= p && p <= len(s) && (forall i int :: 0 <= i && i < p ==> s[i] < x) && (forall i int :: p <= i && i < len(s) ==> x < s[i])
+
+//@ func (*memBSSeqLeaf).put
+//@   props C19
+//@   requires leaf != nil && assert != nil && entriesOK(leaf.memBSLeaf[key[0]])
+//@   ensures [accept] (result == nil) == old(forall f int :: has(leaf.memBSLeaf[key[0]], f) && f <= assertType.MaxSupportedFormat() ==> leaf.memBSLeaf[key[0]][f].Revision() < assert.Revision())
+//@   ensures [refused] result != nil ==> forall m map[int]Assertion, f int :: has(m, f) == old(has(m, f)) && m[f] == old(m[f])
+//@   ensures [refusedseq] result != nil ==> leaf.sequence == old(leaf.sequence) && forall i int :: 0 <= i && i < len(leaf.sequence) ==> leaf.sequence[i] == old(leaf.sequence[i])
+//@   ensures [stored] result == nil ==> leaf.memBSLeaf[key[0]][assert.Format()] == assert
+//@   ensures [same] result == nil && len(leaf.memBSLeaf) == old(len(leaf.sequence)) ==> len(leaf.sequence) == old(len(leaf.sequence)) && forall i int :: 0 <= i && i < len(leaf.sequence) ==> leaf.sequence[i] == old(leaf.sequence[i])
+//@   ensures [wfall] old(forall m map[int]Assertion :: entriesOK(m)) ==> forall m map[int]Assertion :: entriesOK(m)
+//@   ensures [inslen] result == nil && len(leaf.memBSLeaf) != old(len(leaf.sequence)) ==> len(leaf.sequence) == old(len(leaf.sequence)) + 1
+//@   ensures [insert] result == nil && len(leaf.memBSLeaf) != old(len(leaf.sequence)) ==> exists p int :: {leaf.sequence[p]} 0 <= p && p < len(leaf.sequence) && leaf.sequence[p] == specSequence(assert) && (forall i int :: 0 <= i && i < p ==> leaf.sequence[i] == old(leaf.sequence[i])) && (forall i int :: p < i && i < len(leaf.sequence) ==> leaf.sequence[i] == old(leaf.sequence[i-1]))
+
+//@ func lemInsertAtLowerBoundStaysStrict
+//@   lemma
+//@   props C19
+//@   requires len(s1) == len(s0)+1 && 0 <= p && p <= len(s0) && s1[p] == x
+//@   requires forall i int :: 0 <= i && i < p ==> s1[i] == s0[i]
+//@   requires forall i int :: p < i && i < len(s1) ==> s1[i] == s0[i-1]
+//@   requires strictInts(s0) && lowerBound(s0, p, x)
+//@   ensures strictInts(s1)
+
+// the shape of update proved for memBSSeqLeaf.put ([insert]: s1 is s0 with x inserted at p) keeps a
+// strictly increasing slice strictly increasing when p is the position sort.SearchInts documents
+// (first index with s0[p] >= x) and x is not yet in s0
+func lemInsertAtLowerBoundStaysStrict(s0, s1 []int, p, x int) {}
+
+// ---- the tree above the leaves ----------------------------------------------------------------
+
+// every node kind (branch, leaf, sequence leaf) is verified against these clauses
+//@ func (asserts.memBSNode).put
+//@   trusted
+//@   requires assert != nil && forall m map[int]Assertion :: entriesOK(m)
+//@   ensures [refused] result != nil ==> forall m map[int]Assertion, f int :: has(m, f) == old(has(m, f)) && m[f] == old(m[f])
+//@   ensures [wfall] forall m map[int]Assertion :: entriesOK(m)
+
+//@ func (memBSBranch).put
+//@   props C19
+//@   requires assert != nil && forall m map[int]Assertion :: entriesOK(m)
+//@   ensures [refused] result != nil ==> forall m map[int]Assertion, f int :: has(m, f) == old(has(m, f)) && m[f] == old(m[f])
+//@   ensures [wfall] forall m map[int]Assertion :: entriesOK(m)
+
+// lookups: an assertion or errNotFound, never both, and nothing is modified
+//@ func (asserts.memBSNode).get
+//@   trusted
+//@   assigns nothing
+//@   requires forall m map[int]Assertion :: entriesOK(m)
+//@   ensures (result1 == nil) == (result0 != nil)
+//@   ensures result1 != nil ==> result1 == errNotFound
+
+//@ func (memBSBranch).get
+//@   props C19
+//@   requires forall m map[int]Assertion :: entriesOK(m)
+//@   ensures [either] (result1 == nil) == (result0 != nil)
+//@   ensures [notfound] result1 != nil ==> result1 == errNotFound
+//@   ensures [absent] br[key[0]] == nil ==> result1 == errNotFound
+
+//@ func (*memoryBackstore).Get
+//@   props C19
+//@   requires mbs != nil && assertType != nil && forall m map[int]Assertion :: entriesOK(m)
+//@   ensures [either] (result1 == nil) == (result0 != nil)
+
+//@ func (*memoryBackstore).Put
+//@   props C19
+//@   requires mbs != nil && assert != nil && forall m map[int]Assertion :: entriesOK(m)
+//@   ensures [refused] result != nil ==> forall m map[int]Assertion, f int :: has(m, f) == old(has(m, f)) && m[f] == old(m[f])
+//@   ensures [wfall] forall m map[int]Assertion :: entriesOK(m)
+
+// ---- filesystem back end -------------------------------------------------------------------
+
+// the current assertion on disk: an assertion or an error, never both
+//@ func (*filesystemBackstore).currentAssertion
+//@   props C19
+//@   ensures [either] (result1 == nil) == (result0 != nil)
+
+//@ func (*filesystemBackstore).Put
+//@   props C19
+//@   ensures [forward] result == nil ==> final(curAssert) == nil || final(curAssert).Revision() < assert.Revision()
+//@   guard call atomicWriteEntry: err == errNotFound || (err == nil && curAssert.Revision() < assert.Revision())
+
+// ---- Database.Add -------------------------------------------------------------------------------
+
+// back ends behind the interface (in-memory, filesystem, null): assumed, T5
+//@ func (asserts.Backstore).Put
+//@   trusted
+//@ func (asserts.Backstore).Get
+//@   trusted
+//@   assigns nothing
+
+// lookup of the current revision in the stacked-on back ends (stacked databases only): may do
+// anything except replace the database's checker list
+//@ func find
+//@   trusted
+//@   preserves Database.checkers E:Func
+
+//@ func (*Database).Add
+//@   props C19
+//@   requires db != nil
+//@   guard call (asserts.Backstore).Put: [target] recv == db.bs && arg1 == assert
+//@   guard call (asserts.Backstore).Put: [format] assert.SupportedFormat()
+//@   guard call (asserts.Backstore).Put: [checked] forall k int :: 0 <= k && k < len(db.checkers) ==> exists ak *AccountKey, e time.Time, l time.Time :: {checkerOK(db.checkers[k], assert, ak, e, l)} checkerOK(db.checkers[k], assert, ak, e, l)
+//@   guard call (asserts.Backstore).Get: [clashlookup] (recv == db.trusted || recv == db.predefined) && arg0 == ref.Type && arg1 == ref.PrimaryKey && arg2 == ref.Type.MaxSupportedFormat()
+//@   ensures [checked] result == nil ==> assert.SupportedFormat()
+//@   loop 0: invariant -1 <= idx0 && idx0 < len(ref.PrimaryKey)
